@@ -635,7 +635,9 @@ def split(outline):
 
 
 # ------------------------------------------------------------------ the property oracle (independent of the model)
-NAME_RE = re.compile(r"([A-Za-z0-9._-]+)(?:==(.*))?")
+# a plain distribution name (PEP 508): letters, digits, - _ . beginning and ending with a letter or digit (so that a pip
+# option such as `--pre` is not a package name)
+NAME_RE = re.compile(r"([A-Za-z0-9](?:[A-Za-z0-9._-]*[A-Za-z0-9])?)(?:==(.*))?")
 
 
 def _meaning(line):
